@@ -161,6 +161,8 @@ def main(tier):
     rep.attempt(bounds.check_len_width, rep, {'mem_zero'}, 'MEM', 4)
     import stridecover
     rep.attempt(stridecover.check, rep, 'MEM', {'mem_zero'}, 8)
+    import deadvdef
+    rep.attempt(deadvdef.check, rep, 'MEM', r'^mem/', 40)
     return rep.finish()
 
 
